@@ -241,3 +241,21 @@ LEVEL_TEXT["C03"] = {
     "note": "Schedules for asynchronous leaves are sampled (perturbation, 1..4 workers); un-erased static compositions are not generated.",
     "technique": "property-based testing (generated terms, reference interpreter as oracle, lifetime ledger, fork-per-case real runtime)",
 }
+
+PROPS["C18"] = {
+    "targets": [seq("props/C18_type_erasure.cpp", 20000, 50, 300000, 600, shards=6)],
+    "rule": "case = history of 1..28 commands over 4 function + 4 unique_function variables (or 4 any_sender + 4 unique_any_sender variables): "
+            "assign an object (callables of 7 kinds: tiny / <=24 B / >24 B / align 32 / move-only small and big / address-sensitive small; "
+            "senders small and 200 B on each completion channel), default/copy/move construct, copy/move/self assign, reset, swap, invoke "
+            "(l-value and r-value connect+start for senders), emptiness checks; after every command empty()/bool of all wrappers equals the "
+            "model, every invocation equals what the un-erased original does in the same state (differential), use of an empty wrapper raises "
+            "the documented error; a construction/destruction ledger must balance; non-trivial iff the history assigns into a non-empty "
+            "wrapper and holds both an object larger than the inline buffer and a smaller one; distinct by hash",
+    "floor": {"quick": 200, "thorough": 2000},
+    "assumptions": ["PIKA_DETAIL_ENABLE_ANY_SENDER_SBO (opt-in) is not the configuration users get and is not exercised"],
+}
+LEVEL_TEXT["C18"] = {
+    "text": "Model-based property testing: generated operation histories over pika's function/unique_function and any_sender/unique_any_sender wrappers, checked after every step against a reference model of emptiness and against the un-erased original for every invocation / completion (differential oracle), with a lifetime ledger (each contained object destroyed exactly once, never used afterwards, address-sensitive objects never relocated without their move constructor) and the documented error for use of an empty wrapper.",
+    "note": "Sequential by nature; inputs are histories, not schedules.",
+    "technique": "model-based property testing (operation histories vs reference model, differential against the unerased object)",
+}
